@@ -199,8 +199,9 @@ func evalC19Plan(p c19Plan) *Failure {
 			return
 		}
 	}
-	var idleReady sync.WaitGroup
-	runConn := func(spec c19ConnSpec, idle chan struct{}) {
+	var idleReady, stallerReady sync.WaitGroup
+	var releaseStallers chan struct{}
+	runConn := func(spec c19ConnSpec, idle chan struct{}, stalled func()) {
 		var readyOnce sync.Once
 		markReady := func() { readyOnce.Do(idleReady.Done) }
 		if spec.Mode == "idle" {
@@ -271,15 +272,31 @@ func evalC19Plan(p c19Plan) *Failure {
 		case "malformed":
 			conn.Write([]byte("*1\r\n$-x\r\n"))
 			expectClosed(conn, spec.Mode)
+		case "quit-hold", "malformed-hold":
+			// the server ends the connection; the client keeps its own end open: the server side must be released anyway
+			if spec.Mode == "quit-hold" {
+				if v, err := roundTrip(conn, resp.Cmd("QUIT").Bytes(), 10*time.Second); err != nil || !v.Equal(resp.S("OK")) {
+					fail(failf("c19|quit-reply", "%s: QUIT answered %v, %v", what, v, err))
+					return
+				}
+			} else {
+				conn.Write([]byte("*1\r\n$-x\r\n"))
+			}
+			expectClosed(conn, spec.Mode)
+			stalled()
+			<-releaseStallers
 		case "stop-reading":
-			// ask for large replies and never read them, then reset
+			// ask for far more reply data than the socket buffers hold and never read it; stay connected until the
+			// other connections of the cycle have ended and have been released, then reset
 			req := resp.Cmd("GET", "big").Bytes()
 			conn.SetWriteDeadline(time.Now().Add(2 * time.Second))
-			for i := 0; i < 200; i++ {
+			for i := 0; i < 1500; i++ {
 				if _, err := conn.Write(req); err != nil {
 					break
 				}
 			}
+			stalled()
+			<-releaseStallers
 			if tc, ok := raw.(*net.TCPConn); ok {
 				tc.SetLinger(0)
 			}
@@ -299,9 +316,26 @@ func evalC19Plan(p c19Plan) *Failure {
 	for cy := 0; cy < cycles; cy++ {
 		idle := make(chan struct{})
 		sem := make(chan struct{}, p.InFlight)
-		var wg, idleWg sync.WaitGroup
-		nIdle := 0
+		var wg, idleWg, stallWg sync.WaitGroup
+		nIdle, nStall, nHold := 0, 0, 0
+		releaseStallers = make(chan struct{})
 		for _, spec := range p.Conns {
+			if spec.Mode == "stop-reading" || strings.HasSuffix(spec.Mode, "-hold") {
+				if spec.Mode == "stop-reading" {
+					nStall++
+				}
+				nHold++
+				stallerReady.Add(1)
+				stallWg.Add(1)
+				go func(spec c19ConnSpec) {
+					defer stallWg.Done()
+					var once sync.Once
+					stalled := func() { once.Do(stallerReady.Done) }
+					defer stalled() // also when it fails before it stalls
+					runConn(spec, idle, stalled)
+				}(spec)
+				continue
+			}
 			if spec.Mode == "idle" {
 				if !p.Stop || cy != cycles-1 {
 					continue
@@ -311,7 +345,7 @@ func evalC19Plan(p c19Plan) *Failure {
 				idleWg.Add(1)
 				go func(spec c19ConnSpec) {
 					defer idleWg.Done()
-					runConn(spec, idle)
+					runConn(spec, idle, nil)
 				}(spec)
 				continue
 			}
@@ -320,10 +354,27 @@ func evalC19Plan(p c19Plan) *Failure {
 				defer wg.Done()
 				sem <- struct{}{}
 				defer func() { <-sem }()
-				runConn(spec, idle)
+				runConn(spec, idle, nil)
 			}(spec)
 		}
 		wg.Wait()
+		if nHold > 0 {
+			// the other connections have ended while the stallers are still connected and not reading, and the
+			// "-hold" clients keep their end open after the server ended the connection: resources must be
+			// released regardless - the registry may hold only the non-reading stallers (and idle connections)
+			stallerReady.Wait()
+			deadline := time.Now().Add(5 * time.Second)
+			for len(srv.Conns()) > nStall+nIdle && time.Now().Before(deadline) {
+				time.Sleep(2 * time.Millisecond)
+			}
+			if n := len(srv.Conns()); n > nStall+nIdle {
+				close(releaseStallers)
+				stallWg.Wait()
+				return failf("c19|release-blocked-by-stalled-peer", "%s: %d connections are still registered 5s after every connection except %d non-reading clients had ended (clients that merely keep their end open after QUIT or a protocol error do not count): the server side of an ended connection was not released", what, n, nStall)
+			}
+		}
+		close(releaseStallers)
+		stallWg.Wait()
 		if p.Stop && cy == cycles-1 {
 			// the churn is over; wait until the idle connections have done their requests and are registered, then stop the server under them
 			idleReady.Wait()
@@ -391,7 +442,7 @@ var _ = io.EOF
 func TestC19(t *testing.T) {
 	h := newHarness(t, "C19", "ending modes {FIN at a request boundary, FIN inside a request at every sampled offset, full close, QUIT with requests pipelined behind it, malformed frame at a random position, write failure after N bytes, rejected certificate} x position in a pipeline on scripted connections "+
 		"(exact cut offsets and write failures injected deterministically; Close calls counted), and churn plans on real loopback TCP/TLS: 1..32 connections in flight mixing {FIN, FIN mid-request, RST (linger 0), QUIT, malformed frame, peer that stops reading then resets, "+
-		"TLS ok, TLS without certificate, TLS with a rejected name, garbage on the TLS port, idle until Server.Stop}. Oracle: per connection the socket is closed (client sees EOF/reset), the loop returned and the registry entry is gone; per plan, after a 5 s settle budget, "+
+		"QUIT / malformed frame with the client keeping its own end open, TLS ok, TLS without certificate, TLS with a rejected name, garbage on the TLS port, idle until Server.Stop}. Oracle: per connection the socket is closed (client sees EOF/reset), the loop returned and the registry entry is gone; per plan, after a 5 s settle budget, "+
 		"the server goroutine count, len(Conns()) and the /proc/self/fd count are back at the values sampled before the plan. Thorough: up to 10^4 connection endings per plan in repeated cycles. "+
 		"Non-trivial: the plan mixes >=3 ending modes with >=4 connections in flight (scripted: an ending other than FIN at a boundary). Distinct = distinct case.")
 	defer h.Finish()
@@ -423,7 +474,7 @@ func TestC19(t *testing.T) {
 		h.Fail(rt, "c19.scripted", c, evalC19Scripted(c))
 	})
 
-	modes := []string{"fin", "fin-mid", "rst", "quit", "malformed", "stop-reading", "tls-ok", "tls-nocert", "tls-wrongname", "tls-garbage", "idle"}
+	modes := []string{"fin", "fin-mid", "rst", "quit", "malformed", "quit-hold", "malformed-hold", "stop-reading", "tls-ok", "tls-nocert", "tls-wrongname", "tls-garbage", "idle"}
 	nplans := h.N(120, 1200) / h.NShards
 	if nplans < 5 {
 		nplans = 5
